@@ -306,6 +306,23 @@ func GenFS(r *core.Rand, dir string, cfg *FSCfg) *FSLayout {
 			}
 		}
 	}
+	// go test generated main lying under a detected root (GOPATH-mode test binaries are built next to their package)
+	if r.Chance(1, 3) {
+		var roots []string
+		for rem := range l.RemoteGOPATH {
+			roots = append(roots, rem+"/src/gp0pkg/github.com/alpha/one", rem+"/pkg/mod/gp0mod/github.com/beta/two@v1.2.3")
+		}
+		for md := range l.Mods {
+			roots = append(roots, md, md+"/pkg")
+		}
+		if l.RemoteGOROOT != "" {
+			roots = append(roots, l.RemoteGOROOT+"/src/fmt")
+		}
+		sort.Strings(roots)
+		if len(roots) > 0 {
+			addFrame(FSFrame{Remote: r.Pick(roots) + "/_test/_testmain.go", Class: FSStdlib, Pkg: "main", TestMain: true})
+		}
+	}
 	// go test generated main
 	if r.Chance(1, 3) {
 		addFrame(FSFrame{Remote: "/tmp/go-build123/b001/_test/_testmain.go", Class: FSStdlib, Pkg: "main", TestMain: true})
